@@ -19,6 +19,34 @@ sys.setrecursionlimit(100000)
 
 from ..world import FdWorld, SockWorld, GatedPopenWorld
 
+# fd worlds: descriptor kind x select/poll x bytes/unicode
+FD_KINDS = ('pipe', 'pty', 'sockfd', 'fifo', 'tcp')
+FD_VARIANTS = len(FD_KINDS) * 4
+
+
+def fd_variant(v):
+    return dict(kind=FD_KINDS[v % len(FD_KINDS)], use_poll=bool((v // len(FD_KINDS)) % 2),
+                encoding='utf-8' if (v // (2 * len(FD_KINDS))) % 2 else None)
+
+
+def fd_variants_for(schedule):
+    """which worlds a schedule is replayed in: urgent data exists on a TCP connection only, and only the select()
+    flavour is replayed with it (fdspawn(use_poll=True) registers POLLPRI, takes the urgent condition for
+    readability and then sits in a blocking os.read: a defect of the unchanged tree, reported, left out here)"""
+    urgent = any(x[0] == 'P' and x[1].startswith('PeerUrgent') for x in schedule)
+    out = []
+    for v in range(FD_VARIANTS):
+        f = fd_variant(v)
+        if urgent and (f['kind'] != 'tcp' or f['use_poll']):
+            continue
+        out.append(v)
+    return out
+
+
+# in unicode mode a unit is one byte of this text: writes of 1-2 units and reads of 1-2 bytes end inside characters
+UTEXT = '\u00e9\u20ac'.encode('utf-8')          # 2 + 3 bytes
+UNIT_U = (lambda i: bytes([UTEXT[i % len(UTEXT)]]), lambda i: bytes([UTEXT[(i + 2) % len(UTEXT)]]))
+
 TRANSPORTS = {
     'pty': dict(
         module='MCPtyRead',
@@ -34,12 +62,15 @@ TRANSPORTS = {
     'fd': dict(
         module='MCFdRead',
         consts=lambda q: [('MaxUnits', '= %d' % (3 if q else 4)), ('MaxWrite', '= 2'), ('Sizes', '= {1, 2}' if q else '= {1, 2, 3}'),
-                          ('Tmos', '<- TmosFinite'), ('MaxCalls', '= 3')],
+                          ('Tmos', '<- TmosFinite'), ('MaxCalls', '= 3'), ('Urgent', '= TRUE'), ('WakeOnUrgent', '= FALSE')],
         invs=['DeliveredPrefix', 'EofOnlyWhenDrained', 'AtMostSize', 'DataNonEmpty', 'Bounded', 'NotEarly'],
         kinds={'select0': {'Select'}, 'selectT': {'Select'}, 'read': {'Read'}},
-        inter=lambda st, mu: (st['written'] - st['lo'], st['peerOpen'], st['flagEof'], mu - st['written']),
-        world=lambda wd, k: FdWorld(wd, kind=('pipe', 'pty', 'sockfd')[k % 3], use_poll=bool((k // 3) % 2)),
-        variants=6,      # every schedule on pipe / pty / socket descriptor x select / poll
+        inter=lambda st, mu: (st['written'] - st['lo'], st['peerOpen'], st['flagEof'], mu - st['written'], st['urgent']),
+        world=lambda wd, k: FdWorld(wd, **fd_variant(k % FD_VARIANTS)),
+        variants=FD_VARIANTS,    # every schedule on pipe / pty / socket descriptor / FIFO / TCP x select / poll x bytes / unicode
+        variants_for=fd_variants_for,
+        unicode=lambda k: bool(fd_variant(k % FD_VARIANTS)['encoding']),
+        cap=lambda q: 1200 if q else 60000,
     ),
     'socket': dict(
         module='MCSockRead',
@@ -49,16 +80,20 @@ TRANSPORTS = {
         kinds={'settimeout': {'SetTimeout', 'Restore'}, 'recv': {'Recv'}},
         inter=lambda st, mu: (st['written'] - st['lo'], st['peerOpen'], st['flagEof'], mu - st['written'], st['userTimeout']),
         world=None,     # needs the user's timeout of the initial state: see make_world
-        variants=1,
+        variants=2,     # bytes / unicode (recv() results that end inside a character)
+        unicode=lambda k: bool(k % 2),
+        cap=lambda q: 3000 if q else 60000,
     ),
     'popen': dict(
         module='PopenRead',
         consts=lambda q: [('MaxUnits', '= %d' % (3 if q else 4)), ('MaxWrite', '= 2'), ('Sizes', '= {1, 2}' if q else '= {1, 2, 3}'),
-                          ('MaxCalls', '= 3'), ('ThreadChunk', '= 3' if q else '= 4')],
+                          ('MaxCalls', '= 3'), ('ThreadChunk', '= 3' if q else '= 4'), ('ReapShortcut', '= FALSE')],
         invs=['Accounted', 'EofOnlyWhenDrained', 'AtMostSize'],
         kinds={'tread': {'ThreadRead'}, 'tput': {'ThreadPut'}, 'qget': {'Drain'}},
+        # the last result is part of the inter-call state: a call that found the queue momentarily empty (and returned
+        # nothing) is followed by further calls - what it left behind in the object shows only there
         inter=lambda st, mu: (st['written'] - st['plo'], st['tpc'], st['tbuf'], tuple(st['queue']), st['carry'], st['reachedEof'],
-                              st['peerOpen'], mu - st['written']),
+                              st['peerOpen'], mu - st['written'], st['reaped'], st['ret']['kind'] == 'data' and st['ret']['n'] == 0),
         world=lambda wd, k: GatedPopenWorld(wd),
         variants=1,
         reader={'Drain'},
@@ -68,11 +103,22 @@ TRANSPORTS = {
 }
 
 
+def is_unicode(transport, k):
+    f = TRANSPORTS[transport].get('unicode')
+    return bool(f and f(k % 1000))
+
+
 def make_world(transport, workdir, k, init_state):
+    """k: variant + 1000 * salt (the salt picks the text the units are cut from)"""
+    v, salt = k % 1000, k // 1000
     if transport == 'socket':
         ut = init_state['userTimeout']
-        return SockWorld(workdir, user_timeout=None if ut == -1 else float(ut))
-    return TRANSPORTS[transport]['world'](workdir, k)
+        w = SockWorld(workdir, user_timeout=None if ut == -1 else float(ut), encoding='utf-8' if v % 2 else None)
+    else:
+        w = TRANSPORTS[transport]['world'](workdir, v)
+    if is_unicode(transport, k):
+        w.unit = UNIT_U[salt % 2]
+    return w
 
 
 def model_graph(ctx, module, cfgname, consts, invariants, tag):
@@ -94,7 +140,8 @@ def projection(st, maxunits):
 def schedules_from_graph(g, maxunits, reader_names, inter, include_blocked=False, skip=()):
     """For every distinct inter-call state (by projection): a shortest prefix from the initial
     state, then every path through one more call until it returns (or blocks); reader actions are
-    abstracted to a marker ('R',), peer actions keep their label.  Returns the distinct schedules."""
+    abstracted to a marker ('R',), peer actions keep their label.  Returns the distinct schedules as
+    (initial state, schedule, projection of the inter-call state the last call starts from)."""
     parent = {i0: None for i0 in g.init}
     order = list(g.init)
     for n in order:
@@ -138,7 +185,7 @@ def schedules_from_graph(g, maxunits, reader_names, inter, include_blocked=False
                 key = json.dumps([root, pre + acc])
                 if key not in seen:
                     seen.add(key)
-                    out.append((root, pre + list(acc)))
+                    out.append((root, pre + list(acc), proj))
                 return
             outs = [(l, d) for l, d in g.edges[node] if d != node]
             st_ = g.nodes[node]
@@ -148,14 +195,14 @@ def schedules_from_graph(g, maxunits, reader_names, inter, include_blocked=False
                 key = json.dumps([root, pre + acc + [['R']]])
                 if key not in seen:
                     seen.add(key)
-                    out.append((root, pre + list(acc) + [('R',)]))
+                    out.append((root, pre + list(acc) + [('R',)], proj))
             if not outs:
                 # the reader is blocked for ever here (only the C05 check replays those)
                 if include_blocked:
                     key = json.dumps([root, pre + acc])
                     if key not in seen:
                         seen.add(key)
-                        out.append((root, pre + list(acc)))
+                        out.append((root, pre + list(acc), proj))
                 return
             for l, d in outs:
                 it = item(l)
@@ -174,21 +221,18 @@ def replay_one(args):
     transport, workdir, schedule, k, init_state = args
     w = None
     out = {'calls': [], 'error': None, 'events': []}
+    uni = is_unicode(transport, k)
     try:
         w = make_world(transport, workdir, k, init_state)
         w.schedule = [tuple(x) for x in schedule]
-        while True:
-            w.skip_to_call()
-            if w.pos >= len(w.schedule):
-                break
-            cargs = w.schedule[w.pos][1]
-            size, tmo = (cargs[0], cargs[1]) if len(cargs) > 1 else (cargs[0], 0)
-            w.pos += 1
+
+        def one_call(size, tmo, tail=False):
             t = None if tmo == -1 else float(tmo)
             t0 = w.clock.now
-            written0 = len(w.written)
-            w.log(e='call', size=size, tmo=tmo)
-            w.active = True
+            written0, nread0, open0 = len(w.written), w.nread, w.peer_open
+            if not tail:
+                w.log(e='call', size=size, tmo=tmo)
+                w.active = True
             try:
                 data = w.child.read_nonblocking(size, t)
                 res = ('data', data)
@@ -202,21 +246,46 @@ def replay_one(args):
                 res = ('ERR:' + type(e).__name__, b'')
             finally:
                 w.active = False
-            data = res[1] if isinstance(res[1], bytes) else res[1].encode('latin-1')
-            c = {'size': size, 'tmo': tmo, 'kind': res[0], 'data': data.decode('latin-1'),
-                 'elapsed': w.clock.now - t0, 'written_before': written0,
-                 'written_at_return': len(w.written), 'peer_open': w.peer_open, 'peer_exited': w.peer_exited}
+            text = res[1].decode('latin-1') if isinstance(res[1], bytes) else res[1]
+            c = {'size': size, 'tmo': tmo, 'kind': res[0], 'data': text,
+                 'elapsed': w.clock.now - t0, 'written_before': written0, 'peer_open_before': open0,
+                 'written_at_return': len(w.written), 'peer_open': w.peer_open, 'peer_exited': w.peer_exited,
+                 'nbytes': w.nread - nread0, 'lo': w.nread}
+            if tail:
+                c['tail'] = True
             if transport == 'socket':
                 c['sock_timeout_after'] = w.a.gettimeout()
                 c['sock_timeout_user'] = w.user_timeout
             out['calls'].append(c)
-            if res[0] == 'BLOCK':
+            return c
+
+        while True:
+            w.skip_to_call()
+            if w.pos >= len(w.schedule):
                 break
-            w.log(e='ret', kind=res[0], n=len(data), elapsed=int(w.clock.now - t0))
+            cargs = w.schedule[w.pos][1]
+            size, tmo = (cargs[0], cargs[1]) if len(cargs) > 1 else (cargs[0], 0)
+            w.pos += 1
+            c = one_call(size, tmo)
+            if c['kind'] == 'BLOCK':
+                break
+            # in unicode mode the model's units are the bytes taken from the descriptor, not the characters returned
+            w.log(e='ret', kind=c['kind'], n=c['nbytes'] if uni else len(c['data']), elapsed=int(c['elapsed']))
         out['written'] = w.written.decode('latin-1')
         out['transport'] = transport
+        out['unicode'] = uni
         out['events'] = w.events
         out['extra_steps'] = w.extra_steps
+        # completion: whatever the schedule left behind in the object, once the peer has gone everything it wrote is
+        # still returned, then EOF (polls: all of it is in the kernel / the queue by now)
+        if out['calls'] and out['calls'][-1]['kind'] in ('data', 'EOF', 'TIMEOUT'):
+            w.end_stream()
+            out['completed'] = False
+            for _ in range(len(w.written) + 6):
+                c = one_call(2, 0, tail=True)
+                if c['kind'] != 'data':
+                    out['completed'] = c['kind'] == 'EOF'
+                    break
     except Exception:
         out['error'] = traceback.format_exc()
     finally:
@@ -227,37 +296,59 @@ def replay_one(args):
 
 def judge_contract(out):
     """C06 / C05 clauses on what really happened (independent of the implementation-shaped model)"""
+    import codecs
     bad = []
     delivered = ''
     written = out.get('written', '')
+    uni = out.get('unicode')
+
+    def text_of(nbytes):
+        """what a reader that has taken `nbytes` bytes from the descriptor can have returned"""
+        if not uni:
+            return written[:nbytes]
+        return codecs.getincrementaldecoder('utf-8')().decode(written[:nbytes].encode('latin-1'))
     for i, c in enumerate(out['calls']):
         if c['kind'] == 'data':
             delivered += c['data']
             if len(c['data']) > c['size']:
                 bad.append(('C06:more-than-size', i))
-            if not written.startswith(delivered):
+            if uni:
+                # the characters returned so far are exactly the decoding of the bytes taken so far
+                if delivered != text_of(c['lo']):
+                    bad.append(('C06:not-a-prefix-of-what-was-written', i))
+            elif not written.startswith(delivered):
                 bad.append(('C06:not-a-prefix-of-what-was-written', i))
-            if c['data'] == '' and out.get('transport') != 'popen':
+            if c['data'] == '' and out.get('transport') != 'popen' and not uni:
                 bad.append(('C06:empty-data-read', i))
         elif c['kind'] == 'EOF':
-            if len(delivered) < c['written_at_return'] or c['peer_open']:
+            if len(delivered) < len(text_of(c['written_at_return'])) or c['peer_open']:
                 bad.append(('C06:eof-before-all-output-delivered', i))
         elif c['kind'] == 'TIMEOUT':
             if c['tmo'] == -1:
                 bad.append(('C05:timeout-with-timeout-None', i))
             elif c['elapsed'] < c['tmo']:
                 bad.append(('C05:timeout-before-deadline', i))
-            if len(delivered) < c['written_before']:
+            if len(delivered) < len(text_of(c['written_before'])):
                 bad.append(('C05:timeout-although-data-was-readable', i))
+            if not c.get('peer_open_before', True):
+                # the peer had closed / exited before the call started: what is left is data and the end of the
+                # stream, both reported at once by every transport - never "nothing yet"
+                bad.append(('C06:stream-ended-but-timeout-reported-instead-of-data-or-eof', i))
         elif c['kind'] == 'BLOCK':
             if c['tmo'] != -1:
-                bad.append(('C05:blocks-after-hangup-without-exit', i))
+                bad.append(('C05:blocks-after-hangup-without-exit' if not c.get('peer_open_before', True) else 'C05:blocks-past-the-deadline', i))
         elif c['kind'].startswith('ERR:'):
             bad.append(('C05:poll-raises-other-exception' if c['tmo'] == 0 else 'C04:other-exception-instead-of-eof-or-timeout', i))
+            if c.get('tail'):
+                bad.append(('C06:output-not-delivered-before-eof', i))
         if c['kind'] != 'BLOCK' and c['tmo'] != -1 and c['elapsed'] > c['tmo']:
             bad.append(('C05:returned-after-deadline', i))
         if 'sock_timeout_after' in c and c['sock_timeout_after'] != c['sock_timeout_user']:
             bad.append(('C06:socket-timeout-not-restored', i))
+    if out.get('completed') is False and out['calls'] and out['calls'][-1]['kind'] in ('data', 'TIMEOUT'):
+        # the peer has gone, the calls after that did not end with EOF
+        if not any(b[0].startswith('C06:stream-ended') for b in bad):
+            bad.append(('C06:end-of-stream-never-reported', len(out['calls']) - 1))
     return bad
 
 
@@ -298,16 +389,57 @@ def run_transport(ctx, pool, transport, include_blocked=False):
         r2 = tlc.run(T['module'], cfg2, ctx.work, workers=4, timeout=300, outname='pty_unfixed.out', only='EofOnlyWhenDrained')
         if r2['violated'] != 'EofOnlyWhenDrained':
             raise tlc.TLCError('PtyRead with Fixed=FALSE should violate EofOnlyWhenDrained, got %s' % r2['violated'])
+    if transport == 'fd':
+        # model sensitivity: a wait that also returns on an exceptional condition, reported as TIMEOUT, must be caught
+        cfg2 = tlc.write_cfg(os.path.join(ctx.work, 'fd_wake.cfg'), constants=consts[:-1] + [('WakeOnUrgent', '= TRUE')], invariants=T['invs'])
+        r2 = tlc.run(T['module'], cfg2, ctx.work, workers=4, timeout=300, outname='fd_wake.out', only='NotEarly')
+        if r2['violated'] != 'NotEarly':
+            raise tlc.TLCError('FdRead with WakeOnUrgent=TRUE should violate NotEarly, got %s' % r2['violated'])
+        if not any(l.startswith('PeerUrgent') for es in g.edges.values() for l, d in es):
+            raise tlc.TLCError('FdRead: PeerUrgent never taken (vacuous run)')
+    if transport == 'popen':
+        # model sensitivity: "child reaped and queue momentarily empty = end of the stream" must be caught
+        cfg2 = tlc.write_cfg(os.path.join(ctx.work, 'popen_reap.cfg'), constants=consts[:-1] + [('ReapShortcut', '= TRUE')], invariants=T['invs'])
+        r2 = tlc.run(T['module'], cfg2, ctx.work, workers=4, timeout=300, outname='popen_reap.out', only='EofOnlyWhenDrained')
+        if r2['violated'] != 'EofOnlyWhenDrained':
+            raise tlc.TLCError('PopenRead with ReapShortcut=TRUE should violate EofOnlyWhenDrained, got %s' % r2['violated'])
+        if not any(l.startswith('Reap') for es in g.edges.values() for l, d in es):
+            raise tlc.TLCError('PopenRead: Reap never taken (vacuous run)')
     reader = T.get('reader') or set().union(*T['kinds'].values())
     scheds, nstates, npaths = schedules_from_graph(g, maxunits, reader, T['inter'], include_blocked, skip=T.get('skip', ()))
     rng = random.Random(ctx.seed * 31 + 5)
-    cap = (3000 if quick else 60000) // T['variants']
+    cap = T['cap'](quick) if 'cap' in T else (3000 if quick else 60000) // T['variants']
     if len(scheds) > cap:
-        scheds = rng.sample(scheds, cap)
+        # stratified: the same number of single-call paths out of every inter-call state (as far as it has that many)
+        groups = {}
+        for sc in scheds:
+            groups.setdefault(json.dumps(sc[2]), []).append(sc)
+        for gl in groups.values():
+            rng.shuffle(gl)
+        picked, depth = [], 0
+        while len(picked) < cap:
+            row = [gl[depth] for gl in groups.values() if depth < len(gl)]
+            if not row:
+                break
+            if len(picked) + len(row) > cap:
+                row = rng.sample(row, cap - len(picked))
+            picked += row
+            depth += 1
+        scheds = picked
     jobs = []
-    for k, (root, s_) in enumerate(scheds):
-        for v in range(T['variants']):
-            jobs.append((transport, ctx.work, s_, k * T['variants'] + v if T['variants'] == 1 else v, g.nodes[root]))
+    nvar = {}
+    for k, (root, s_, proj_) in enumerate(scheds):
+        if T['variants'] == 1:
+            vs = [k]
+        else:
+            vs = T['variants_for'](s_) if 'variants_for' in T else list(range(T['variants']))
+            if quick and len(vs) > 8:
+                # quick tier: 8 of the worlds per schedule, rotating (every world gets every 2nd-3rd schedule)
+                o = (k * 3) % len(vs)
+                vs = (vs[o:] + vs[:o])[::len(vs) // 8][:8]
+            vs = [v + 1000 * (k % 2) for v in vs]
+        for v in vs:
+            jobs.append((transport, ctx.work, s_, v, g.nodes[root]))
     t0 = time.time()
     outs = pool.map(replay_one, jobs, chunksize=8)
     ctx.note('%s: %d inter-call states, %d single-call paths -> %d distinct schedules, %d replays on the real transport in %.0fs' % (
